@@ -74,6 +74,10 @@ SHARED_C10 = {
     "div_by_zero_const": Div(C(1), C(0)),
     # constants spelled as floats (whole-valued, negative zero): a rewrite that "normalises" a caller's node shows in print
     "float_consts": Mul(Add(x, C(3.0)), C(2.0), Add(y, C(-0.0))),
+    # already reduced nodes whose operands have a normal form that is spelled differently (sum with a negated term,
+    # product with a reciprocal factor): the normal-form pass visits the caller's own node
+    "respellable_in_product": Mul(x, Add(y, Neg(x))),
+    "respellable_in_sum": Add(x, Mul(y, Recip(x))),
 }
 CONTEXTS = {
     "add_y": lambda s: Add(s, y),
@@ -93,7 +97,8 @@ VARS = ("x", "y")
 
 # ---------------------------------------------------------------- pools
 class PoolSpec:
-    def __init__(self, name, shared, c1, c2, slots, points=POINTS, extra_ops=True, budget=None, keep_located=False):
+    def __init__(self, name, shared, c1, c2, slots, points=POINTS, extra_ops=True, budget=None, keep_located=False, rename=None):
+        self.rename = dict(rename or {})   # variable renaming applied to the pool's expressions, points and queried names
         self.keep_located = keep_located   # LocatedDifferentials returned by the pooled Differentials are kept and read later
         self.budget = budget      # harness-patched REDUCTION_STEPS_BOUND for this pool (leaked budget state shows early)
         self.name = name
@@ -104,6 +109,17 @@ class PoolSpec:
         self.points = points
         self.t1 = CONTEXTS[c1](shared)
         self.t2 = CONTEXTS[c2](shared)
+        if self.rename:
+            ren = self.rename
+
+            def rn(t):
+                if t[0] == "var":
+                    return ("var", ren.get(t[1], t[1]))
+                if t[0] == "const":
+                    return t
+                return M.with_children(t, [rn(c) for c in M.children(t)])
+            self.shared, self.t1, self.t2 = rn(self.shared), rn(self.t1), rn(self.t2)
+            self.points = [{ren.get(k, k): v for k, v in p.items()} for p in points]
 
     def describe(self):
         return {"name": self.name, "S": M.show(self.shared), "e1": M.show(self.t1), "e2": M.show(self.t2),
@@ -140,7 +156,7 @@ def make_pool(spec: PoolSpec):
         return A.build(t, True, memo)
 
     pool = {"e1": build_with_shared(spec.t1), "e2": build_with_shared(spec.t2), "s": s,
-            "pts": [Point(**p) for p in spec.points], "outs": {}, "kept": None, "keptP": None, "asexpr_called": ()}
+            "pts": [Point(**p) for p in spec.points], "outs": {}, "kept": None, "keptP": None, "asexpr_called": (), "ren": spec.rename}
     for sl in spec.slots:
         pool[sl] = None
     return pool
@@ -150,7 +166,7 @@ def make_standalone(spec: PoolSpec):
     """Freshly built, never-used copies: every expression built on its own (tree mode, nothing shared
     between e1, e2 and s).  This is what the answers of the pooled objects are compared with."""
     pool = {"e1": A.build(spec.t1), "e2": A.build(spec.t2), "s": A.build(spec.shared),
-            "pts": [Point(**p) for p in spec.points], "outs": {}, "kept": None, "keptP": None, "asexpr_called": ()}
+            "pts": [Point(**p) for p in spec.points], "outs": {}, "kept": None, "keptP": None, "asexpr_called": (), "ren": spec.rename}
     for sl in spec.slots:
         pool[sl] = None
     return pool
@@ -183,6 +199,7 @@ def ops_for(spec: PoolSpec):
     # requests on unrelated, freshly built expressions: they can only matter through process-wide state
     ops.append(("ext", "failing-fold"))
     ops.append(("ext", "non-finite-results"))
+    ops.append(("ext", "beyond-the-recursion-limit"))
     if spec.keep_located:
         ops.append(("LD.read", "x"))
         ops.append(("LD.read", "y"))
@@ -236,12 +253,13 @@ def apply_op(pool, op):
     """Execute one menu entry on the pool (mutating it); returns the classified outcome."""
     k = op[0]
     pts = pool["pts"]
+    R = lambda name: pool.get("ren", {}).get(name, name)
     if k == "at":
         return A.outcome(lambda: pool[op[1]].at(pts[op[2]]))
     if k == "at_num":
         return A.outcome(lambda: pool[op[1]].at(op[2]))
     if k == "LD":
-        return A.outcome(lambda: LocatedDifferential(pool[op[1]], pts[op[2]]).component(op[3]))
+        return A.outcome(lambda: LocatedDifferential(pool[op[1]], pts[op[2]]).component(R(op[3])))
     if k == "D.at_num":
         return A.outcome(lambda: Derivative(pool[op[1]]).at(op[2]))
     if k == "LD.keep":
@@ -252,9 +270,9 @@ def apply_op(pool, op):
         pool["kept"] = None
         return c
     if k == "LD.read":
-        return A.outcome(lambda: pool["kept"][0].component(op[1]))
+        return A.outcome(lambda: pool["kept"][0].component(R(op[1])))
     if k == "Df.comp.keep":
-        c = A.construct(lambda: pool[op[1]].component(op[2]))
+        c = A.construct(lambda: pool[op[1]].component(R(op[2])))
         if c[0] == "ok":
             pool["keptP"] = (c[1], op[1], op[2])
             pool["asexpr_called"] = tuple(x for x in pool["asexpr_called"] if x != "keptP")
@@ -323,7 +341,7 @@ def apply_op(pool, op):
         out = pool["outs"][(op[1], None)]
         return A.outcome(lambda: out.at(pts[op[2]]))
     if k == "Df.at":
-        return A.outcome(lambda: obj.at(pts[op[2]]).component(op[3]))
+        return A.outcome(lambda: obj.at(pts[op[2]]).component(R(op[3])))
     if k == "Df.at.repr":
         # the located differential printed; "twin" = a point equal to point 0 but written differently
         # (other coordinate order, floats for ints)
@@ -335,9 +353,9 @@ def apply_op(pool, op):
             p = pts[op[2]]
         return _text(lambda: repr(obj.at(p)))
     if k == "Df.component_at":
-        return A.outcome(lambda: obj.component_at(op[2], pts[op[3]]))
+        return A.outcome(lambda: obj.component_at(R(op[2]), pts[op[3]]))
     if k == "Df.component.asexpr":
-        o = A.construct(lambda: obj.component(op[2]).as_expression())
+        o = A.construct(lambda: obj.component(R(op[2])).as_expression())
         if o[0] == "ok":
             pool["outs"][(op[1], op[2])] = o[1]
             return A.outcome(lambda: o[1])
@@ -351,6 +369,17 @@ def external_request(which):
     if which == "failing-fold":
         # simplification meets a variable-free sub-expression that is undefined: its fold fails and is abandoned
         return A.outcome(lambda: Partial(smx.Multiply(smx.Add(smx.Logarithm(smx.Constant(-1)), smx.Constant(2)), X), "x").as_expression())
+    if which == "beyond-the-recursion-limit":
+        # a sum of 1200 terms written with +: deeper than the interpreter's recursion limit, so every route answers
+        # RecursionError -- unless an earlier call left interpreter-wide settings changed
+        e = X
+        for _ in range(1200):
+            e = e + X
+        outs = []
+        for thunk in (lambda: e.at(Point(x=0.5)), lambda: Partial(e, "x").at(Point(x=0.5))):
+            o = A.outcome(thunk)
+            outs.append(repr(o[1]) if o[0] == "val" else "/".join(str(u) for u in o[:2]))
+        return ("text", "; ".join(outs))
     big = Point(x=1e200, y=1e200)
     edge = Point(x=1.7e308, y=-1.7e308)
     tiny = Point(x=1e-320, y=1e200)
@@ -589,6 +618,13 @@ class LibraryGlobals:
 
 def is_dirty(pool, spec, op):
     """Some node reachable from the call's target carries a memo or a flag (history can matter)."""
+    try:
+        return _is_dirty(pool, spec, op)
+    except Exception:  # noqa: BLE001 - a pool whose objects no longer have the expected shape (the oracles report that)
+        return True
+
+
+def _is_dirty(pool, spec, op):
     targets = []
     k = op[0]
     if k in ("at", "at_num", "LD", "D.at_num", "LD.keep", "repr"):
@@ -784,7 +820,8 @@ def show_op(spec, op):
         return "Derivative(Exponential(Constant(1000)) * x).as_expression()   (raises OverflowError)"
     if k == "ext":
         return {"failing-fold": "Partial(Multiply(Add(Logarithm(Constant(-1)), Constant(2)), x), 'x').as_expression()   (fresh expression; its constant fold fails)",
-                "non-finite-results": "x*y, x+x, x-y, y/x, 1/x, x*y-y*x, 0*(x*y) on fresh expressions at points where doubles overflow (inf / nan results)"}[op[1]]
+                "non-finite-results": "x*y, x+x, x-y, y/x, 1/x, x*y-y*x, 0*(x*y) on fresh expressions at points where doubles overflow (inf / nan results)",
+                "beyond-the-recursion-limit": "x + x + ... + x (1200 terms, fresh): at(Point) and Partial.at   (deeper than the recursion limit)"}[op[1]]
     if k == "Df.at.keep":
         return f"kept = {op[1]}.at({P(op[2])})"
     if k == "new":
@@ -968,6 +1005,11 @@ def pool_specs(pid, tier):
                           points=[POINTS[0], POINTS[1], POINTS[2]], keep_located=True))
     specs.append(PoolSpec("kept_located/late", Mul(x, y), "npow2", "exp", ("Df2l", "Df1e"),
                           points=[POINTS[0], POINTS[1], POINTS[2]], keep_located=True))
+    # variable names of which one is contained in the other (x / x1, n / point): every query names one of them
+    specs.append(PoolSpec("names/x_x1", Mul(x, y), "add_y", "exp", ("P1l", "Df2l"),
+                          points=[POINTS[0], POINTS[1], POINTS[3]], rename={"y": "x1"}))
+    specs.append(PoolSpec("names/n_point", Mul(x, y), "npow2", "add_y_S", ("P1e", "Df2e"),
+                          points=[POINTS[0], POINTS[1], POINTS[2]], rename={"x": "point", "y": "n"}))
     # a pool explored under a tight step budget, with an operation that makes simplification raise part-way:
     # step-budget state that leaks from one call into the next becomes visible within a few operations
     specs.append(PoolSpec("budget/mul", Mul(x, y), "add_y", "exp", ("P1l", "Df2e"),
